@@ -6,4 +6,5 @@ Extraction "c12_model.ml"
   ds_add ds_expire ds_get ds_has ds_contacts bad_of
   pages_announced pages_announced_old serve_page walk honest_with honest delivered delivered_old real_cap good_count_old MAX_VALUE_PAGES
   public_ip decode_compact valid_compact
-  f_init fstep frun total_pages.
+  f_init fstep frun total_pages
+  guess_udp producer_action find_value_reply_size MSG_SIZE_LIMIT.
